@@ -1,7 +1,7 @@
 """Group GC (§5.2): when WAL files may be unlinked."""
 import re
 
-from core import op_local, op_const_bits, place_fields, strip_crate, rvalue_operands
+from core import op_local, op_const_bits, place_fields, strip_crate, rvalue_operands, mem_loc
 from engine import rule
 from flow import flow_of
 from vocab import (api_mut, open_bodies, log_sites, log_site_kinds, kinds_written, agg_field_op,
@@ -150,7 +150,20 @@ def position_pass_facts(ctx, b):
             r0 = b.reach([b.entry], avoid=[n.point for n in nexts])
             if any(p_ in r0 for p_ in ok_pts):
                 always_ok = False
-        out.append({'cs': cs, 'item_ok': item_ok, 'pos_ok': pos_ok, 'yielders': yielders, 'nexts': nexts, 'loops': loops, 'every_ok': every_ok, 'always_ok': always_ok})
+        # ... and the pass is COMPLETE: it is left successfully only when the iterator is exhausted (a `break` on some
+        # condition of its own -- the writer rolled over, a budget -- leaves the queues not yet visited unrecorded while
+        # the caller goes on to unlink)
+        complete_ok = True
+        none_edges = []
+        for n in nexts:
+            if n.dest_local() is not None:
+                none_edges.extend(result_edges(b, n.dest_local())['err'])
+        if nexts and none_edges:
+            ok_pts = [e['point'] for e in b.exits() if e['kind'] in ('ok',)] or b.return_points()
+            r1 = b.reach([n.point for n in nexts], avoid_edges=none_edges)
+            if any(p_ in r1 for p_ in ok_pts):
+                complete_ok = False
+        out.append({'cs': cs, 'item_ok': item_ok, 'pos_ok': pos_ok, 'yielders': yielders, 'nexts': nexts, 'loops': loops, 'every_ok': every_ok, 'always_ok': always_ok, 'complete_ok': complete_ok})
     return out
 
 
@@ -209,6 +222,29 @@ def gc1(ctx):
                       'RecordPosition.position does not flow from MemQueue::next_position/start_position of the yielded queue')
             ctx.check(f['every_ok'], k + ':every-item-logged', where(b, f['cs'].point), 'every queue handed out by the iterator gets its position entry',
                       'the position pass can skip a queue it was handed (a `continue` before the log site, e.g. an "already recorded" cache): the only record of an idle empty queue would die with its file')
+            # ... and the pass only READS the queues: neither the iterator that feeds it (its closures included) nor the loop
+            # calls a `&mut self` method of MemQueue or stores into one -- a queue "tidied up" on the way (buffers released
+            # through `*self = MemQueue::default()`) loses its start position before the position is even logged
+            touched = []
+            hosts = [b] + [y for (y, _ok) in f['yielders']]
+            for y in list(hosts):
+                for (_p, fj) in y.fn_values:
+                    if fj.get('node') in ctx.f.bodies:
+                        hosts.append(ctx.f.bodies[fj['node']])
+            for h in hosts:
+                for c in h.calls:
+                    if c.node in ctx.f.bodies and ctx.f.bodies[c.node].path.startswith('mem::queue::MemQueue::') and ctx.f.bodies[c.node].arg_count >= 1 \
+                            and ctx.f.bodies[c.node].local_ty(1).startswith('&mut '):
+                        touched.append('%s calls %s' % (h.path.split('::')[-1], c.path.split('::')[-1]))
+                for (p_, pl_, rv_) in h.stores:
+                    if (mem_loc(pl_) or '').startswith('MemQueue.'):
+                        touched.append('%s stores into %s' % (h.path.split('::')[-1], mem_loc(pl_)))
+                    elif pl_['p'] and all(e_['k'] == 'deref' for e_ in pl_['p']) and 'mem::queue::MemQueue' in h.local_ty(pl_['l']) and h.local_ty(pl_['l']).startswith('&mut '):
+                        touched.append('%s overwrites a whole MemQueue' % h.path.split('::')[-1])
+            ctx.check(not touched, k + ':reads-only', where(b, f['cs'].point), 'the position pass and the iterator feeding it do not modify the queues',
+                      'the position pass (or the iterator that feeds it) modifies the queues it walks (%s): the position logged, and the live queue, are no longer what the calls before left' % '; '.join(sorted(set(touched))))
+            ctx.check(f['complete_ok'], k + ':runs-to-the-end', where(b, f['cs'].point), 'the loop over the empty queues is left successfully only when the iterator is exhausted',
+                      'the position pass can stop before the iterator is exhausted and still return successfully (a break / early Ok on a condition of its own): the queues not yet visited keep their only position record in files the caller goes on to unlink')
             if True:
                 is_api = any(r['node'] == b.id for r in ctx.f.roots)
                 # only for a body that IS the pass (called before the unlink); a pass written in place in the body that
@@ -469,8 +505,48 @@ def gc4(ctx):
     rem = tracker_removals(ctx)
     if not rem:
         ctx.missing('removal', 'no removal from the tracked file set found')
+    def undo_of_mint(hb, at, key_op):
+        """at point `at` of body hb the tracker element `key_op` is removed again because the creation of its file
+        failed: the key flows from a call that mints AND inserts a number (FileTracker::inc), and `at` is only reachable
+        through the Err edge of a file creation that comes after the mint"""
+        from core import result_edges
+        flh = flow_of(hb)
+        mints = [c for c in hb.calls if c.node is not None and ctx.f.bodies[c.node].path.startswith('rolling::file_number::FileTracker::')
+                 and any(c2.path.endswith('FileNumber::new') for c2 in ctx.f.bodies[c.node].calls)]
+        for mt in mints:
+            t = flh.forward(set(flh.call_result_nodes(mt)))
+            if not flh.op_tainted(key_op, t):
+                continue
+            for c in hb.calls:
+                is_create = (c.node is not None and ctx.E.call_may(c, 'CREATE')) or any(p_ == c.point and e_ == 'CREATE' for (p_, e_, _c) in ctx.E.direct_sites(hb))
+                if not is_create or c.dest_local() is None or c.point not in hb.reach_after(mt.point):
+                    continue
+                for ed in result_edges(hb, c.dest_local())['err']:
+                    if hb.edge_dominates(ed, at):
+                        return True
+        return False
     for (b, cs, m) in rem:
         key = '%s:%s' % (b.path, m)
+        if m == 'remove' and len(cs.args) > 1:
+            # the one legitimate removal by key: un-tracking a number minted a moment ago whose file could not be created
+            ok_undo = False
+            if not b.path.startswith('rolling::file_number::FileTracker::'):
+                ok_undo = undo_of_mint(b, cs.point, cs.args[1])
+            else:
+                kl = op_local(cs.args[1])
+                pidx = []
+                for o in (b.trace_local(kl) if kl is not None else []):
+                    if o[0] == 'param':
+                        pidx.append(o[1])
+                    elif o[0] == 'rv' and o[2]['k'] == 'ref' and all(e['k'] == 'deref' for e in o[2]['place']['p']) and 1 <= o[2]['place']['l'] <= b.arg_count:
+                        pidx.append(o[2]['place']['l'])         # `&*param`
+                from_param = bool(pidx)
+                callers = [(hb, c) for hb in ctx.f.bodies.values() for c in hb.calls if c.node == b.id]
+                if from_param and callers and pidx:
+                    ok_undo = all(len(c.args) >= pidx[0] and undo_of_mint(hb, c.point, c.args[pidx[0] - 1]) for (hb, c) in callers)
+            if ok_undo:
+                ctx.check(True, key + ':undo-of-mint', where(b, cs.point), 'a number is removed by key only to un-track a freshly minted one whose file could not be created', '')
+                continue
         if m != 'pop_first':
             ctx.bad(key, where(b, cs.point), 'tracked files are removed with BTreeSet::%s: only the oldest file may ever be removed (pop_first)' % m)
             continue
